@@ -49,7 +49,7 @@ def run_unit(spec):
         fns = [R.read_exact]
     elif name == "zigzag":
         results = L1.verify_zigzag(reg)
-        fns = [R._zigzag_decode]
+        fns = [f for f in [getattr(R, '_zigzag_decode', None)] if f is not None]
     elif name == "empty_tagged":
         results = [L1.verify_empty_tagged(reg)]
         fns = [W.write_empty_tagged_fields]
